@@ -264,6 +264,9 @@ func (m c02) Run(c *core.Ctx) {
 	n := c.Pick(1000, 20000)
 	o := c02opts()
 	for i := 0; i < n; i++ {
+		if stopExploring(c) {
+			break
+		}
 		o.Params = c.Rng.Intn(3)
 		gp := gen.Generate(c.Rng, o)
 		p := fromGen(gp)
